@@ -170,75 +170,279 @@ def render() -> str:
 
 
 GUARD_OUT = LEAN_DIR / 'AeicModel' / 'Generated' / 'Guard.lean'
+GUARD_REACH_OUT = LEAN_DIR / 'AeicModel' / 'Generated' / 'GuardReach.lean'
 
+# ---------------------------------------------------------------------------------------------------------------------
+# Thread-ownership code of TrajectoryStore.__init__  ->  program of AeicModel/GuardLang.lean
+#
+# What is translated: every statement of `__init__` (and, inlined, of the class's own helper methods it calls without
+# arguments) that reads or writes `<Class>.active_in_thread`, takes or releases a class-level lock, or assigns a local
+# that holds such a value. Reads of the shared attribute are hoisted into temporaries, one atomic instruction each.
+# Statements that touch none of these are skipped (they cannot change who owns the stores); conditions on anything else
+# and `try` bodies that may raise become nondeterministic choices; the end of the constructor may raise.
+# A statement that does touch the ownership state in a form not understood is a TranslationError.
+# ---------------------------------------------------------------------------------------------------------------------
+OWNER = 'active_in_thread'
 
-def _is_owner_attr(n: ast.AST) -> bool:
-    return isinstance(n, ast.Attribute) and n.attr == 'active_in_thread'
+def is_owner_attr(n): return isinstance(n, ast.Attribute) and n.attr == OWNER
+def is_lock_expr(n): return isinstance(n, ast.Attribute) and 'lock' in n.attr.lower()
+def is_get_ident(n):
+    return isinstance(n, ast.Call) and not n.args and not n.keywords and (
+        (isinstance(n.func, ast.Attribute) and n.func.attr == 'get_ident') or (isinstance(n.func, ast.Name) and n.func.id == 'get_ident'))
 
+class G:
+    def __init__(self, cls: ast.ClassDef):
+        self.cls = cls
+        self.methods = {b.name: b for b in cls.body if isinstance(b, ast.FunctionDef)}
+        self.locals: dict[str, int] = {}
+        self.ntmp = 0
+        self.inlining: list[str] = []
 
-def _is_get_ident(n: ast.AST) -> bool:
-    return isinstance(n, ast.Call) and isinstance(n.func, ast.Attribute) and n.func.attr == 'get_ident' and not n.args
+    # ---- relevance
+    def relevant(self, node) -> bool:
+        for n in ast.walk(node):
+            if is_owner_attr(n) or is_lock_expr(n):
+                return True
+            if isinstance(n, ast.Name) and n.id in self.locals:
+                return True
+            if isinstance(n, ast.Call) and self.method_call(n) is not None and self.method_relevant(self.method_call(n)):
+                return True
+        return False
 
+    def method_call(self, call: ast.Call):
+        f = call.func
+        if isinstance(f, ast.Attribute) and isinstance(f.value, ast.Name) and f.value.id in ('self', 'cls', self.cls.name) \
+                and f.attr in self.methods and f.attr != '__init__':
+            return f.attr
+        return None
 
-def _guard_block(stmts) -> str:
-    out = []
-    for st in stmts:
-        if isinstance(st, ast.Expr) and isinstance(st.value, ast.Constant) and isinstance(st.value.value, str):
-            continue  # docstring
+    def method_relevant(self, name, seen=None) -> bool:
+        seen = seen or set()
+        if name in seen:
+            return False
+        seen.add(name)
+        for n in ast.walk(self.methods[name]):
+            if is_owner_attr(n) or is_lock_expr(n):
+                return True
+            if isinstance(n, ast.Call):
+                m = self.method_call(n)
+                if m is not None and self.method_relevant(m, seen):
+                    return True
+        return False
+
+    # ---- expressions
+    def loc(self, name: str) -> int:
+        if name not in self.locals:
+            self.locals[name] = len(self.locals)
+        return self.locals[name]
+
+    def tmp(self) -> int:
+        self.ntmp += 1
+        return self.loc(f'%t{self.ntmp}')
+
+    def pexpr(self, e, pre: list) -> str:
+        """pure expression; owner reads are hoisted into `pre` (in evaluation order)"""
+        if isinstance(e, ast.Constant) and e.value is None:
+            return '.none'
+        if is_get_ident(e):
+            return '.me'
+        if is_owner_attr(e):
+            t = self.tmp()
+            pre.append(f'.readOwner {t}')
+            return f'(.loc {t})'
+        if isinstance(e, ast.Name) and e.id in self.locals:
+            return f'(.loc {self.locals[e.id]})'
+        raise TranslationError(f'expression not understood at line {getattr(e, "lineno", "?")}: {ast.dump(e)[:120]}')
+
+    def cond(self, c, pre: list) -> str:
+        if isinstance(c, ast.Constant) and c.value is True:
+            return '.tt'
+        if isinstance(c, ast.BoolOp):
+            parts = [self.cond(v, pre) for v in c.values]
+            op = '.and' if isinstance(c.op, ast.And) else '.or'
+            r = parts[0]
+            for p in parts[1:]:
+                r = f'({op} {r} {p})'
+            return r
+        if isinstance(c, ast.UnaryOp) and isinstance(c.op, ast.Not):
+            return f'(.not {self.cond(c.operand, pre)})'
+        if isinstance(c, ast.Compare) and len(c.ops) == 1:
+            op, a, b = c.ops[0], c.left, c.comparators[0]
+            if isinstance(op, (ast.In, ast.NotIn)) and isinstance(b, (ast.Tuple, ast.List, ast.Set)) and b.elts:
+                pa = self.pexpr(a, pre)
+                alts = [f'(.eq {pa} {self.pexpr(x, pre)})' for x in b.elts]
+                r = alts[0]
+                for p in alts[1:]:
+                    r = f'(.or {r} {p})'
+                return r if isinstance(op, ast.In) else f'(.not {r})'
+            if isinstance(op, (ast.Is, ast.Eq, ast.IsNot, ast.NotEq)):
+                pa, pb = self.pexpr(a, pre), self.pexpr(b, pre)
+                if pb == '.none':
+                    r = f'(.isNone {pa})'
+                elif pa == '.none':
+                    r = f'(.isNone {pb})'
+                else:
+                    r = f'(.eq {pa} {pb})'
+                return r if isinstance(op, (ast.Is, ast.Eq)) else f'(.not {r})'
+        if isinstance(c, (ast.Name, ast.Attribute, ast.Call)):
+            return f'(.truthy {self.pexpr(c, pre)})'
+        raise TranslationError(f'condition not understood at line {getattr(c, "lineno", "?")}: {ast.dump(c)[:120]}')
+
+    # ---- statements
+    def block(self, stmts) -> list[str]:
+        out: list[str] = []
+        for st in stmts:
+            out += self.stmt(st)
+        return out
+
+    def stmt(self, st) -> list[str]:
+        if isinstance(st, ast.Expr) and isinstance(st.value, ast.Constant):
+            return []
         if isinstance(st, ast.Pass):
-            continue
-        if isinstance(st, ast.With) and len(st.items) == 1 and isinstance(st.items[0].context_expr, ast.Attribute) \
-                and 'lock' in st.items[0].context_expr.attr.lower() and st.items[0].optional_vars is None:
-            out.append(f'.withLock {_guard_block(st.body)}')
-        elif isinstance(st, ast.If) and isinstance(st.test, ast.Compare) and len(st.test.ops) == 1 \
-                and _is_owner_attr(st.test.left) and isinstance(st.test.ops[0], ast.IsNot) \
-                and isinstance(st.test.comparators[0], ast.Constant) and st.test.comparators[0].value is None:
-            out.append(f'.ifOwnerSet {_guard_block(st.body)} {_guard_block(st.orelse)}')
-        elif isinstance(st, ast.If) and isinstance(st.test, ast.Compare) and len(st.test.ops) == 1 \
-                and _is_owner_attr(st.test.left) and isinstance(st.test.ops[0], ast.NotEq) and _is_get_ident(st.test.comparators[0]):
-            out.append(f'.ifOwnerNotMe {_guard_block(st.body)} {_guard_block(st.orelse)}')
-        elif isinstance(st, ast.Raise):
-            out.append('.raise')
-        elif isinstance(st, ast.Assign) and len(st.targets) == 1 and _is_owner_attr(st.targets[0]) and _is_get_ident(st.value):
-            out.append('.setOwnerMe')
-        else:
-            raise TranslationError(f'thread guard: statement form not understood at line {st.lineno}: {ast.dump(st)[:160]}')
-    return '[' + ', '.join(out) + ']'
+            return []
+        if isinstance(st, ast.Raise):
+            return ['.raise']
+        if isinstance(st, ast.Return) and st.value is None and self.inlining:
+            raise TranslationError(f'early return inside an inlined helper at line {st.lineno}')
+        if isinstance(st, ast.With) and len(st.items) == 1 and is_lock_expr(st.items[0].context_expr) and st.items[0].optional_vars is None:
+            return [f'.withLock {fmt(self.block(st.body))}']
+        if isinstance(st, ast.Expr) and isinstance(st.value, ast.Call):
+            call = st.value
+            f = call.func
+            if isinstance(f, ast.Attribute) and f.attr in ('acquire', 'release') and is_lock_expr(f.value) and not call.args and not call.keywords:
+                return ['.' + f.attr]
+            m = self.method_call(call)
+            if m is not None and self.method_relevant(m):
+                if call.args or call.keywords:
+                    raise TranslationError(f'helper {m} called with arguments at line {st.lineno}')
+                if m in self.inlining:
+                    raise TranslationError(f'recursive helper {m}')
+                self.inlining.append(m)
+                try:
+                    body = list(self.methods[m].body)
+                    if body and isinstance(body[-1], ast.Return) and body[-1].value is None:
+                        body = body[:-1]
+                    return self.block(body)
+                finally:
+                    self.inlining.pop()
+        if isinstance(st, ast.Expr):
+            # any other expression statement can only READ the owner attribute or tracked locals (logging, assertions on
+            # values): it cannot change who owns the stores
+            for n in ast.walk(st):
+                if isinstance(n, ast.NamedExpr) or (isinstance(n, ast.Call) and isinstance(n.func, ast.Name) and n.func.id in ('setattr', 'delattr')):
+                    raise TranslationError(f'thread guard: expression statement with side effects at line {st.lineno}')
+                if isinstance(n, ast.Call) and isinstance(n.func, ast.Attribute) and is_lock_expr(n.func.value):
+                    raise TranslationError(f'thread guard: lock operation not understood at line {st.lineno}: {ast.unparse(st)[:100]!r}')
+            return []
+        if isinstance(st, ast.Try):
+            if not self.relevant(st):
+                return []
+            if any(self.relevant(x) for x in st.body) or st.finalbody or st.orelse:
+                raise TranslationError(f'thread guard: try statement with guard code in its body/finally at line {st.lineno}')
+            # the body does not touch the guard but may raise: each handler may run
+            out = []
+            for h in st.handlers:
+                out.append(f'.choice [] {fmt(self.block(h.body))}')
+            return out
+        if isinstance(st, ast.If):
+            if not self.relevant(st):
+                return []
+            test_relevant = any(is_owner_attr(n) or (isinstance(n, ast.Name) and n.id in self.locals) for n in ast.walk(st.test))
+            if not test_relevant:
+                # the condition is about something else (mode, arguments): either branch may be taken
+                return [f'.choice {fmt(self.block(st.body))} {fmt(self.block(st.orelse))}']
+            pre: list[str] = []
+            c = self.cond(st.test, pre)
+            return pre + [f'.ite {c} {fmt(self.block(st.body))} {fmt(self.block(st.orelse))}']
+        if isinstance(st, (ast.Assign, ast.AnnAssign)):
+            targets = st.targets if isinstance(st, ast.Assign) else [st.target]
+            value = st.value
+            if len(targets) == 1 and is_owner_attr(targets[0]):
+                base = targets[0].value
+                if not (isinstance(base, ast.Name) and base.id == self.cls.name):
+                    raise TranslationError(f'line {st.lineno}: the owner is assigned through `{ast.unparse(base)}`, not through the class '
+                                           f'`{self.cls.name}` (creates a shadowing attribute on a subclass or instance)')
+                pre = []
+                e = self.pexpr(value, pre)
+                return pre + [f'.setOwner {e}']
+            if len(targets) == 1 and isinstance(targets[0], ast.Name) and value is not None and \
+                    (is_owner_attr(value) or is_get_ident(value) or (isinstance(value, ast.Constant) and value.value is None)
+                     or (isinstance(value, ast.Name) and value.id in self.locals)):
+                if is_owner_attr(value):
+                    return [f'.readOwner {self.loc(targets[0].id)}']
+                pre = []
+                e = self.pexpr(value, pre)
+                return pre + [f'.setLoc {self.loc(targets[0].id)} {e}']
+        if self.relevant(st):
+            raise TranslationError(f'thread guard: statement form not understood at line {st.lineno}: {ast.unparse(st)[:120]!r}')
+        return []   # does not touch the owner attribute, the lock or a tracked local
+
+def fmt(xs): return '[' + ', '.join(xs) + ']'
+
+
+
+def guard_program_text() -> str:
+    """The ownership code of TrajectoryStore.__init__ as a `List GStmt` literal."""
+    path = SRC() / 'trajectories' / 'store.py'
+    tree = ast.parse(path.read_text())
+    cls = next((c for c in ast.walk(tree) if isinstance(c, ast.ClassDef) and c.name == 'TrajectoryStore'), None)
+    if cls is None:
+        raise TranslationError('class TrajectoryStore not found')
+    g = G(cls)
+    init = g.methods.get('__init__')
+    if init is None:
+        raise TranslationError('TrajectoryStore.__init__ not found')
+    prog = g.block(init.body)
+    if not prog:
+        raise TranslationError('TrajectoryStore.__init__ contains no thread-ownership code at all')
+    # whatever comes after (argument checks, opening files) may raise
+    return fmt(prog + ['.choice [] [.raise]'])
+
+
+CANONICAL_GUARD = ('[.withLock [.readOwner 0, .ite (.not (.isNone (.loc 0))) [.readOwner 1, .ite (.not (.eq (.loc 1) .me)) '
+                   '[.raise] []] [.setOwner .me]], .choice [] [.raise]]')
 
 
 def render_guard() -> str:
-    """The statements of TrajectoryStore.__init__ before `self.mode = mode`, as a program of AeicModel/GuardLang.lean."""
-    path = SRC() / 'trajectories' / 'store.py'
-    tree = ast.parse(path.read_text())
-    init = None
-    for cls in ast.walk(tree):
-        if isinstance(cls, ast.ClassDef) and cls.name == 'TrajectoryStore':
-            for b in cls.body:
-                if isinstance(b, ast.FunctionDef) and b.name == '__init__':
-                    init = b
-    if init is None:
-        raise TranslationError('TrajectoryStore.__init__ not found')
-    region = []
-    for st in init.body:
-        if isinstance(st, ast.Assign) and len(st.targets) == 1 and isinstance(st.targets[0], ast.Attribute) \
-                and st.targets[0].attr == 'mode' and isinstance(st.targets[0].value, ast.Name) and st.targets[0].value.id == 'self':
-            break
-        region.append(st)
-    else:
-        raise TranslationError('`self.mode = mode` (end of the guard region) not found in TrajectoryStore.__init__')
-    prog = _guard_block(region)
+    prog = guard_program_text()
     return ('/- GENERATED by harness/common/translator.py from src/AEIC/trajectories/store.py on every check run. Do not edit. -/\n'
             'import AeicModel.GuardLang\nnamespace Aeic.Gen\nopen Aeic.GuardLang\n\n'
             f'def guardProgram : List GStmt := {prog}\n\nend Aeic.Gen\n')
 
 
 def regenerate_guard() -> bool:
+    """Writes Generated/Guard.lean (the program) and, when the program changed, Generated/GuardReach.lean (candidate
+    invariant set computed by Scripts/GuardReachGen.lean; checked by the kernel in Properties/C20.lean)."""
+    import hashlib
+    import subprocess
+
     txt = render_guard()
+    tag = hashlib.sha256(txt.encode()).hexdigest()[:16]
     GUARD_OUT.parent.mkdir(parents=True, exist_ok=True)
-    if GUARD_OUT.exists() and GUARD_OUT.read_text() == txt:
-        return False
-    GUARD_OUT.write_text(txt)
-    return True
+    changed = not (GUARD_OUT.exists() and GUARD_OUT.read_text() == txt)
+    if changed:
+        GUARD_OUT.write_text(txt)
+    stale = not GUARD_REACH_OUT.exists() or f'-- program: {tag}' not in GUARD_REACH_OUT.read_text()[:400]
+    if stale:
+        r = subprocess.run(['lake', 'build', 'AeicModel.Generated.Guard'], cwd=LEAN_DIR, capture_output=True, text=True)
+        if r.returncode != 0:
+            raise TranslationError('generated guard program does not build: ' + (r.stdout + r.stderr)[-400:])
+        r = subprocess.run(['lake', 'env', 'lean', '--run', 'Scripts/GuardReachGen.lean', tag], cwd=LEAN_DIR, capture_output=True, text=True)
+        if r.returncode != 0 or 'def guardReach' not in r.stdout:
+            raise TranslationError('reachable-set generation failed: ' + (r.stdout + r.stderr)[-400:])
+        GUARD_REACH_OUT.write_text(r.stdout)
+    return changed or stale
+
+
+def guard_witness():
+    """The model-level counterexample schedule printed by the generator, if the generated program is unsafe."""
+    import json as _json
+    if not GUARD_REACH_OUT.exists():
+        return None
+    for ln in GUARD_REACH_OUT.read_text()[:20000].splitlines()[:8]:
+        if ln.startswith('-- WITNESS: '):
+            return _json.loads(ln[len('-- WITNESS: '):])
+    return None
 
 
 def regenerate() -> bool:
